@@ -22,12 +22,17 @@ TraceAlloc ==
   /\ Next(ev.e, (ev.id - next[ev.e]) \div Step)
   /\ (ev.nx >= 0 => next'[ev.e] = ev.nx)
 
+\* the end was closed (at some point before the identifiers that follow in the log were allocated, or while
+\* they were: closing does not change what the allocator may hand out)
+TraceClose == Consume("Close") /\ ev.e \in End /\ Close(ev.e)
+
 TraceReset ==
   /\ Consume("Reset")
   /\ next' = [e \in End |-> First(e)] /\ ids' = [e \in End |-> {}] /\ cnt' = [e \in End |-> 0]
+  /\ open' = [e \in End |-> TRUE]
   /\ UNCHANGED loc /\ last' = [act |-> "Init"]
 
-TraceNext == TraceAlloc \/ TraceReset
+TraceNext == TraceAlloc \/ TraceClose \/ TraceReset
 
 HighWater == TLCSet(1, IF l > TLCGet(1) THEN l ELSE TLCGet(1))
 TraceAccepted == /\ PrintT("HW " \o ToString(TLCGet(1)))
